@@ -122,6 +122,9 @@ def run(ctx, rep):
     c10.propagation_rule(ctx, rep, "C07")
     import pipeline
     pipeline.rule(ctx, rep, "C07", ['resolve_types', 'check_methods'])
+    rep.rule("LX", "lexical agreement (C03 A10, re-evaluated here): the property quantifies over documents - token classes, their priorities, the keyword rule, comments and white space must be the reference ones (a changed comment / number / keyword regex silently drops or merges members)")
+    import lexical
+    lexical.rules(ctx, rep, "C07", {"trivia", "classes", "priority", "keywords", "tokenizer"})
     rep.assumptions += ["TB-1 rustc MIR", "TB-4 the tabulator (validated by selftest mutants)",
                         "per-argument loop carries no state between iterations other than the append-only diagnostics vector (checked: only effects are pushes)"]
 
